@@ -650,6 +650,7 @@ class KB:
     def __init__(self, ck):
         self.ck = ck
         self.cc = ck.build_cproc_qbe()
+        self.san = ck.build_cproc_qbe(sanitize=True)
         self.dir = os.path.join(ck.scratch(), "kb")
         os.makedirs(self.dir, exist_ok=True)
         self.stats = {"strings": 0, "chars": 0, "rejected_ok": 0, "range_class": 0, "impl_defined": 0,
@@ -659,12 +660,14 @@ class KB:
     def h(self, key):
         self.hist[key] = self.hist.get(key, 0) + 1
 
-    def compile(self, target, src):
+    def compile(self, target, src, sanitized=False):
         path = os.path.join(self.dir, "p.c")
         with open(path, "wb") as f:
             f.write(src)
         self.stats["compilations"] += 1
-        r = subprocess.run([self.cc, "-t", target, path], stdout=subprocess.PIPE, stderr=subprocess.PIPE)
+        env = dict(os.environ, ASAN_OPTIONS="detect_leaks=0")
+        r = subprocess.run([self.san if sanitized else self.cc, "-t", target, path], stdout=subprocess.PIPE,
+                           stderr=subprocess.PIPE, env=env)
         return r.returncode, r.stdout.decode("latin-1"), r.stderr.decode("latin-1")
 
     def model(self, lines):
@@ -810,6 +813,22 @@ def run_strings(kb, cases):
                 continue
             singles, batch, out = [bad] + singles, [], ""
             break
+        if batch:
+            # the same accepted literals through the ASan/UBSan build: no memory error in stringconcat
+            rcs, outs, errs = kb.compile(target, src, sanitized=True)
+            if rcs != 0 or "Sanitizer" in errs or "runtime error" in errs or outs != out:
+                culprit = None
+                for i in batch:     # find one literal that triggers it
+                    r1, o1, e1 = kb.compile(target, str_decl(i, orcs[i][1], toks_all[i]), sanitized=True)
+                    if r1 != 0 or "Sanitizer" in e1 or "runtime error" in e1:
+                        culprit = (i, e1)
+                        break
+                ck.violation({"kind": "memory-error", "target": target,
+                              "what": "sanitizer report / abort while compiling accepted string literals",
+                              "literal": c_tokens(toks_all[culprit[0]]).decode("latin-1") if culprit else None,
+                              "stderr": (culprit[1] if culprit else errs)[-1500:],
+                              "theorem": "C14.string_buffer_safe"})
+                return False
         bdata = parse_data(out)
         for i in batch:
             c = cases[i]
